@@ -118,7 +118,7 @@ def run(eng, pid, tier, repo, scratch, seed):
             except Exception:
                 res['inconclusive'].append({'why': 'replay-driver-output', 'detail': (p.stdout + p.stderr)[-800:]})
                 continue
-            bc = {'name': 'KeyExpList::clear_expired (body: closure capturing &mut inside Vec::retain)' + (' under a panicking expiration accessor' if job['name'].endswith('panic') else ''),
+            bc = {'name': 'KeyExpList::clear_expired with the real Vec::retain (cross-check of the T24 rewrite; the function itself is verified)' + (' under a panicking expiration accessor' if job['name'].endswith('panic') else ''),
                   'engine': 'replay driver: executable contract on the real function',
                   'bound': ('all vectors of <= %d entries, expirations and time over %d points, every lower bound as cached minimum' % (n, tp)) + ('; a panic injected at every call index of expiration()' if job['name'].endswith('panic') else ''),
                   'cases': j.get('cases'), 'nontrivial': j.get('nontrivial'), 'ok': j.get('ok'), 'wall_s': round(dt, 1), 'label': 'bounded - not counted as proved'}
